@@ -101,6 +101,8 @@ def _run(eng, c, fn, scenario):
         v = fresh_value(n, s)
         st.env[n] = v
         eng.typing_facts(st, v)
+        if s[0] in ("ref", "list") and z3.is_expr(v.t):
+            eng.param_consts = (eng.param_consts or set()) | {v.t.decl().name()}
     st.old = st.fork()
     st.old.old = None
     se = SpecEval(eng, st, pre_state=st.old)
@@ -138,6 +140,8 @@ def _run(eng, c, fn, scenario):
             if z3.is_const(term) and term.decl().kind() == z3.Z3_OP_UNINTERPRETED:
                 continue
             fin = z3.Const(f"F!{nm}!{next(_fresh)}", term.sort())
+            from .engine import ARRAY_DEFS
+            ARRAY_DEFS[fin.decl().name()] = term
             post.assume(fin == term)
             post.heap.arrs[nm] = fin
         # each clause is proved with the clauses before it as lemmas (they are proved on this very path, so this is sound;
